@@ -1058,6 +1058,13 @@ impl Gen {
                 }
                 "vanish" => {
                     let pk = if self.rng.chance(9, 10) { *self.rng.pick(&self.authors) } else { self.rng.bytes32() };
+                    if self.rng.chance(1, 4) {
+                        // the request is itself an event of the key: a relay that stores it first
+                        // and then acts on it must lose it with everything else of the key
+                        let req = crate::real::vanish_spec(&pk);
+                        self.apply_store_to_gen_model(&req);
+                        ops.push(Op::Store(req));
+                    }
                     let _ = self.model.apply_vanish(&pk);
                     ops.push(Op::Vanish(pk));
                 }
